@@ -469,8 +469,14 @@ func TestCallerBuffersUntouched(t *testing.T) {
 	hx.Check(t, 6, func(t *rapid.T) {
 		housekeeping()
 		rand.Seed(rapid.Int64().Draw(t, "seed"))
-		n := rapid.SampledFrom([]int{0, 1, 7, 8, 9, 100, 125, 126, 127, 128, 129, 300, 4096, 5000}).Draw(t, "n")
-		orig := rapid.SliceOfN(rapid.Byte(), n, n).Draw(t, "payload")
+		n := rapid.SampledFrom([]int{0, 1, 7, 8, 9, 100, 125, 126, 127, 128, 129, 255, 256, 257, 300, 1024, 4095, 4096, 4097, 5000,
+			16384, 32768, 65535, 65536, 65537, 70000, 131072, 140000}).Draw(t, "n")
+		var orig []byte
+		if n <= 5000 {
+			orig = rapid.SliceOfN(rapid.Byte(), n, n).Draw(t, "payload")
+		} else {
+			orig = gen.Filled(n, rapid.Byte().Draw(t, "fill"))
+		}
 		p := append([]byte(nil), orig...)
 		api := rapid.SampledFrom([]string{"WriteMessage", "WriteClientMessage", "WriteClientText", "WriteClientBinary", "WriteServerMessage",
 			"Writer.WriteThrough", "Writer.Write+scribble+Flush", "CipherWriter.Write", "MaskFrame", "MaskFrameWith", "UnmaskFrame"}).Draw(t, "api")
